@@ -13,6 +13,7 @@
 # License along with this library.  If not, see <http://www.gnu.org/licenses/>.
 
 import collections
+import math
 import pathlib
 import sys
 import textwrap
@@ -258,7 +259,9 @@ class ParentTranslator:
                 return '.'.join(attrs)
             else:
                 return 'None'
-        elif any(type(value) is t for t in literal_types):
+        elif (any(type(value) is t for t in literal_types)
+              and not (type(value) is float and not math.isfinite(value))):
+            # repr of nan, inf and -inf is a name, not a literal: those are pickled
             return pprint.pformat(value)
         elif (isinstance(value, types.ModuleType)
               and value in sys.modules.values()):
